@@ -573,6 +573,136 @@ fn block_literals(thorough: bool) -> Vec<Vec<u8>> {
     out
 }
 
+
+/// Decimal digit strings of the exact midpoints between neighbouring binary floats, generated
+/// with plain decimal-digit arithmetic (times two, times five). Only a *generator*: what each
+/// literal must be converted to is decided by the oracle (`expect` / `correctly_rounded`).
+///
+/// For every biased exponent in `exps` and every significand pattern in `mants` the midpoint
+/// between the float (m, e) and its successor, (2m+1) * 2^(e-1), is written three ways (plain
+/// decimal, `<digits>E<exp>`, `0.<digits>E<exp>`), and next to the tie itself the two closest
+/// neighbours of the tie on a finer decimal grid (`...5` -> `...49999`, `...50001`).
+fn tie_literals(is32: bool, exps: &[u32], mants: &[u64], out: &mut dyn FnMut(Vec<u8>)) {
+    let (mbits, bias) = if is32 { (23u32, 127i64) } else { (52u32, 1023i64) };
+    fn twice(d: &mut Vec<u8>) {
+        let mut carry = 0;
+        for x in d.iter_mut().rev() {
+            let t = *x * 2 + carry;
+            *x = t % 10;
+            carry = t / 10;
+        }
+        if carry > 0 {
+            d.insert(0, carry);
+        }
+    }
+    fn times5(d: &mut Vec<u8>) {
+        let mut carry = 0;
+        for x in d.iter_mut().rev() {
+            let t = *x * 5 + carry;
+            *x = t % 10;
+            carry = t / 10;
+        }
+        if carry > 0 {
+            d.insert(0, carry);
+        }
+    }
+    for &mant in mants {
+        for &be in exps {
+            // float = sig * 2^e2 with sig including the hidden bit (normal numbers)
+            let (sig, e2) = if be == 0 { (mant, 1 - bias - mbits as i64) } else { (mant | (1u64 << mbits), be as i64 - bias - mbits as i64) };
+            let odd = 2 * sig as u128 + 1; // midpoint = odd * 2^(e2-1)
+            let e = e2 - 1;
+            let mut digits: Vec<u8> = odd.to_string().bytes().map(|b| b - b'0').collect();
+            let mut point = 0usize; // number of digits behind the decimal point
+            if e >= 0 {
+                for _ in 0..e {
+                    twice(&mut digits);
+                }
+            } else {
+                for _ in 0..-e {
+                    times5(&mut digits);
+                }
+                point = (-e) as usize;
+            }
+            let ds: Vec<u8> = digits.iter().map(|d| d + b'0').collect();
+            // the tie and its two neighbours on a grid three digits finer
+            let mut below = ds.clone();
+            {
+                // ds - 1 in the last place, then "999"
+                let mut i = below.len();
+                loop {
+                    i -= 1;
+                    if below[i] > b'0' {
+                        below[i] -= 1;
+                        break;
+                    }
+                    below[i] = b'9';
+                }
+                below.extend_from_slice(b"999");
+            }
+            let mut above = ds.clone();
+            above.extend_from_slice(b"001");
+            for (digs, extra) in [(&ds, 0usize), (&below, 3), (&above, 3)] {
+                let p = point + extra;
+                // plain decimal
+                let mut plain: Vec<u8> = vec![];
+                if p == 0 {
+                    plain.extend_from_slice(digs);
+                } else if digs.len() > p {
+                    plain.extend_from_slice(&digs[..digs.len() - p]);
+                    plain.push(b'.');
+                    plain.extend_from_slice(&digs[digs.len() - p..]);
+                } else {
+                    plain.extend_from_slice(b"0.");
+                    plain.extend(std::iter::repeat(b'0').take(p - digs.len()));
+                    plain.extend_from_slice(digs);
+                }
+                out(plain.clone());
+                let mut neg = vec![b'-'];
+                neg.extend_from_slice(&plain);
+                out(neg);
+                // <digits>E-<p>
+                let mut sci = digs.to_vec();
+                sci.extend_from_slice(format!("E-{p}").as_bytes());
+                out(sci);
+                // 0.<digits>e<len - p>
+                let mut frac = b"+.".to_vec();
+                frac.extend_from_slice(digs);
+                frac.extend_from_slice(format!("e{}", digs.len() as i64 - p as i64).as_bytes());
+                out(frac);
+            }
+        }
+    }
+}
+
+fn tie_mantissas(is32: bool, thorough: bool) -> Vec<u64> {
+    let mbits = if is32 { 23 } else { 52 };
+    let ones = (1u64 << mbits) - 1;
+    let mut m = vec![0, 1, ones, ones - 1];
+    if thorough {
+        m.extend([2, 1u64 << (mbits - 1), (1u64 << (mbits - 1)) - 1, 0x5555_5555_5555_5555 & ones, 0xAAAA_AAAA_AAAA_AAAA & ones, 0x0012_3456_789A_BCDE & ones]);
+    }
+    m
+}
+
+/// Every value of the 8- and 16-bit ranges (and a margin beyond) in the four notations.
+fn all_small_ints(lo: i64, hi: i64, out: &mut dyn FnMut(Vec<u8>)) {
+    for v in lo..hi {
+        out(format!("{v}").into_bytes());
+        if v >= 0 {
+            out(format!("#H{v:X}").into_bytes());
+            out(format!("#Q{v:o}").into_bytes());
+            out(format!("#B{v:b}").into_bytes());
+            out(format!("+{v}").into_bytes());
+            out(format!("{v}.0").into_bytes());
+            out(format!("{v}E0").into_bytes());
+        }
+    }
+}
+
+const SHORT_ALPHA: &[u8] = b"+-0129.E";
+const SHORT_ALPHA_T: &[u8] = b"+-0129.Ee5";
+
 // ---------------------------------------------------------------------- main
 
 fn replay(path: &str) -> ! {
@@ -709,6 +839,12 @@ fn main() {
         Pair(usize, usize),
         Arity,
         Mix,
+        /// all strings of exactly `len` numeric characters that start with symbol `first`
+        Short(&'static str, &'static str, usize, usize),
+        /// tie literals of one significand pattern over a range of exponents
+        Ties(&'static str, &'static str, u64, Vec<u32>),
+        /// every integer of a range in every notation
+        Ints(&'static str, &'static str, i64, i64),
     }
     let mut items: Vec<Item> = vec![];
     let mut per_type: Vec<(String, usize)> = vec![];
@@ -732,6 +868,53 @@ fn main() {
         per_type.push((tn.to_string(), lits.len()));
         for chunk in lits.chunks(4096) {
             items.push(Item::Single(tn, mn, chunk.to_vec()));
+        }
+    }
+    // deep sweeps generated on the fly
+    let short_alpha: &'static [u8] = if thorough { SHORT_ALPHA_T } else { SHORT_ALPHA };
+    let mut deep = vec![];
+    for (tn, mn) in TYPES {
+        let t = ty_of(tn);
+        let numeric = matches!(t, Ty::UInt(_) | Ty::Int(_) | Ty::F32 | Ty::F64);
+        if numeric || t == Ty::Bool {
+            let (from, to) = match (thorough, *tn) {
+                (false, "u8" | "i8" | "bool") => (1, 0), // already in the pool above
+                (false, _) => (1, 5),
+                (true, "u8" | "i8" | "f32" | "f64" | "i64") => (1, 7),
+                (true, _) => (1, 6),
+            };
+            for len in from..=to {
+                for first in 0..short_alpha.len() {
+                    items.push(Item::Short(tn, mn, len, first));
+                }
+            }
+            if from <= to {
+                deep.push(json!({"type": tn, "all_strings_up_to": to, "alphabet": String::from_utf8_lossy(short_alpha)}));
+            }
+        }
+        if matches!(t, Ty::F32 | Ty::F64) {
+            let is32 = t == Ty::F32;
+            let maxe: u32 = if is32 { 254 } else { 2046 };
+            let step = if thorough || is32 { 1 } else { 16 };
+            let exps: Vec<u32> = (0..=maxe).step_by(step).chain([1, 2, maxe - 1, maxe]).collect();
+            for m in tie_mantissas(is32, thorough) {
+                for ch in exps.chunks(32) {
+                    items.push(Item::Ties(tn, mn, m, ch.to_vec()));
+                }
+            }
+            deep.push(json!({"type": tn, "rounding_ties": "midpoint between (m, e) and its successor, exact decimal expansion, and the two neighbours of the midpoint three decimal places finer; each written plain, negated, as <digits>E-<k> and as +.<digits>e<k>",
+                "biased_exponents": exps.len(), "significand_patterns": tie_mantissas(is32, thorough).len()}));
+        }
+        if let Ty::UInt(b) | Ty::Int(b) = t {
+            if b <= 16 || thorough {
+                let (lo, hi) = if b == 8 { (-400i64, 400i64) } else { (-70000, 140000) };
+                let mut v = lo;
+                while v < hi {
+                    items.push(Item::Ints(tn, mn, v, (v + 2048).min(hi)));
+                    v += 2048;
+                }
+                deep.push(json!({"type": tn, "every_integer_in": [lo, hi], "notations": "decimal, +decimal, #H, #Q, #B, <v>.0, <v>E0"}));
+            }
         }
     }
     for a in 0..TYPES.len() {
@@ -762,6 +945,29 @@ fn main() {
             for l in lits {
                 verdict_single(st, mn, tn, t, l);
             }
+        }
+        Item::Short(tn, mn, len, first) => {
+            let t = ty_of(tn);
+            let mut lit = vec![0u8; *len];
+            lit[0] = short_alpha[*first];
+            if *len == 1 {
+                verdict_single(st, mn, tn, t, &lit);
+            } else {
+                mc::util::product(short_alpha.len(), len - 1, |idx| {
+                    for (k, &i) in idx.iter().enumerate() {
+                        lit[k + 1] = short_alpha[i];
+                    }
+                    verdict_single(st, mn, tn, t, &lit);
+                });
+            }
+        }
+        Item::Ties(tn, mn, m, exps) => {
+            let t = ty_of(tn);
+            tie_literals(t == Ty::F32, exps, &[*m], &mut |l| verdict_single(st, mn, tn, t, &l));
+        }
+        Item::Ints(tn, mn, lo, hi) => {
+            let t = ty_of(tn);
+            all_small_ints(*lo, *hi, &mut |l| verdict_single(st, mn, tn, t, &l));
         }
         Item::Pair(a, b) => {
             let (ta, ma) = TYPES[*a];
@@ -848,6 +1054,7 @@ fn main() {
         json!({"literals_per_type": per_type, "classes": {"must_deliver": t.delivered, "must_reject": t.rejected, "either": t.either, "float_correct_rounding": t.floats, "ill_formed": t.illformed},
                "integer_magnitudes": "0..=300, 2^k-1/2^k/2^k+1 (k<=65), 10^k-1/10^k (k<=20), type MAX-1..MAX+1, |MIN|-1..|MIN|+1, u128::MAX; x sign {none,+,-} x leading zeros {0,1,3} x {decimal,#H,#h,#Q,#q,#B,#b, mixed-case hex}",
                "short_strings": "all strings of length <=5 over + - 0 1 2 9 . E (u8, i8, bool)",
+               "deep_sweeps": deep,
                "floats": "17 integer parts x 9 fractions x 17 exponents x 3 signs x e/E + literals at the rounding boundaries of the smallest subnormal, f32/f64 MAX + half ulp, 2^24+1, 2^53+1",
                "pairs": "15 x 15 ordered type pairs x small pools (deliverable and rejected literals), missing / extra parameter",
                "arity": "declared 0..=10 x supplied 0..=12; one unconvertible parameter at each position",
